@@ -112,7 +112,15 @@ SWITCH = [
   ("packet_out",      lambda x: W.packet_out(x, _OUT, _pat(60, 4), in_port=1)),                   # 84
   ("packet_out_2500", lambda x: W.packet_out(x, _OUT, _pat(2476, 5), in_port=1)),                 # 2500
 ]
-ALPHA = dict(controller=CTRL, switch=SWITCH)
+# controller with the Nicira extension component loaded (pox.openflow.nicira replaces the VENDOR unpacker): vendor
+# messages of another vendor with 0..5 payload bytes, a well-formed Nicira message, and ordinary neighbours
+OTHER_VENDOR = 0x00C0FFEE
+NICIRA = [("vendor_other_p%d" % k, (lambda k: lambda x: W.vendor(x, OTHER_VENDOR, _pat(k, 8)))(k)) for k in range(6)] + [   # 12..17
+  ("nx_role_reply",  lambda x: W.vendor(x, 0x2320, struct.pack("!LL", 11, 1))),                    # 20 (NXT_ROLE_REPLY, master)
+  ("barrier_reply",  lambda x: S.barrier_reply(x)),
+  ("packet_in",      lambda x: S.packet_in(x, _pat(61, 2), in_port=3, buffer_id=7, reason=W.OFPR_ACTION)),
+]
+ALPHA = {"controller": CTRL, "switch": SWITCH, "controller-nicira": NICIRA}
 SMALL_STREAM = 120          # streams up to this length get every 2-cut
 CHUNKS = list(range(1, 17)) + [2047, 2048, 2049]
 
@@ -153,11 +161,24 @@ class Recorder (object):
     self.log.append((getattr(msg, "header_type", None), getattr(msg, "xid", None), packed, type(msg).__name__))
 
 
+def _nicira (on):
+  """Configuration switch: install / remove the Nicira component's VENDOR unpacker in of_01's (module global, shared)
+  unpacker table - what pox.openflow.nicira.launch() does via _init_unpacker()."""
+  import pox.openflow.of_01 as of01
+  if not on and "pox.openflow.nicira" not in sys.modules: return
+  import pox.openflow.nicira as nx
+  installed = of01.unpackers[W.VENDOR] is nx._unpack_nx_vendor
+  if on and not installed: nx._init_unpacker()
+  elif not on and installed: of01.unpackers[W.VENDOR] = nx._old_unpacker
+
+
 class CtrlEnd (object):
   """Fresh nexus + real of_01.Connection, handshake driven over the wire, then recorder handlers."""
   side = "controller"
+  nicira = False
   def __init__ (self):
     from mc import env
+    _nicira(self.nicira)
     cs = env.ControllerStack()
     i = cs.connect()
     con = cs.cons[i]
@@ -276,14 +297,19 @@ class SwitchEnd (object):
   def open (self): return not self.worker.closed and not self.sock.closed
 
 
-ENDS = dict(controller=CtrlEnd, switch=SwitchEnd)
+class NiciraCtrlEnd (CtrlEnd):
+  side = "controller-nicira"
+  nicira = True
+
+
+ENDS = {"controller": CtrlEnd, "switch": SwitchEnd, "controller-nicira": NiciraCtrlEnd}
 
 
 def reusable (end):
   """A receiver may serve another case iff it is back in the state a fresh one is in, as far as the read path can
   see: reassembly buffer empty, nothing queued on the socket, open, recorder still installed.  The log is cleared."""
   if end is None or end.residual() or end.sock.rx or end.notes or end.rec.runaway or not end.open(): return False
-  if end.side == "controller":
+  if end.side.startswith("controller"):
     if any(h is not end.rec for h in end.con.handlers): return False
   elif end.conn.on_message_received is not end.rec: return False
   del end.log[:]
@@ -394,7 +420,7 @@ def run_case (side, msgs, kind, arg, src="/repo", trace=None, end=None):
         checked += 1
       if end.notes:
         # the receiver gave up (closed / read() False / error handler): classed by the size of the read it happened in
-        rsz = 2048 if side == "controller" else 8192
+        rsz = 2048 if side.startswith("controller") else 8192
         rcls = "read-of-exactly-recv-size" if got and got % rsz == 0 else "read-shorter-than-recv-size" if got < rsz else "read-longer-than-recv-size"
         return bad(end.notes[0], rcls, "%s on a well-formed stream: %d bytes received, the last read call took %d (recv size %d)"
                    % (end.notes[0], fed, got, rsz)), profile, nreads, states
@@ -727,6 +753,277 @@ def _worker_live (item):
   return rep
 
 
+# ---------------------------------------------------------------------------------------------------
+# switch, reconnect: a connection lost mid-message, the datapath's worker reconnects, a new stream follows
+# ---------------------------------------------------------------------------------------------------
+# The datapath's real worker class (pox.datapaths.OpenFlowWorker, a BackoffWorker / PersistentIOWorker from
+# pox.lib.ioworker.workers) on a real RecocoIOLoop.  Sockets come from a scripted `socket` module bound into
+# workers.py, the back-off timer (core.callDelayed) is a list the harness fires.  History: connect; the first `cut`
+# bytes of stream A arrive (cut anywhere, also mid-message); the connection is lost (EOF / reset / exceptional
+# condition); the timer fires, the worker reconnects; stream B arrives on the new connection, segmented.  Each
+# connection's OFConnection gets its own recorder.  Oracle: connection 1 delivered exactly the messages complete in
+# A[:cut]; connection 2 delivers exactly B - once each, in order, never early, nothing of A's partial message - and
+# ends with an empty buffer, open.
+RECONNECT_A = (("flow_mod",), ("echo_request", "packet_out"))
+RECONNECT_B = (("hello",), ("echo_request",), ("flow_mod",), ("hello", "flow_mod"), ("barrier_request", "echo_request"))
+RECONNECT_LOSS = ("eof", "reset", "exceptional")
+
+
+class NBSock (object):
+  """Scripted non-blocking TCP socket for workers.py: connect in progress, then readable when `rx` holds bytes;
+  once `lost` is set, recv answers the way a dead connection does."""
+  def __init__ (self):
+    self.rx = []; self.sent = b""; self.closed = False; self.lost = None; self.shut = []
+  def setblocking (self, b): pass
+  def setsockopt (self, *a): pass
+  def connect_ex (self, addr): return errno.EINPROGRESS
+  def getpeername (self): return ("controller", 6633)
+  def fileno (self): return 98
+  def send (self, data, flags=0):
+    self.sent += bytes(data); return len(data)
+  def recv (self, n, flags=0):
+    import socket as _s
+    if flags & _s.MSG_PEEK or (not self.rx and not self.lost):
+      raise BlockingIOError(errno.EAGAIN, "Resource temporarily unavailable")
+    if self.rx:
+      c = self.rx.pop(0)
+      if len(c) > n:
+        self.rx.insert(0, c[n:]); c = c[:n]
+      return c
+    if self.lost == "reset": raise ConnectionResetError(errno.ECONNRESET, "Connection reset by peer")
+    return b""
+  def shutdown (self, how): self.shut.append(how)
+  def close (self): self.closed = True
+
+
+class _SockMod (object):
+  """Stands in for the `socket` module inside pox.lib.ioworker.workers."""
+  def __init__ (self):
+    import socket as _s
+    self.AF_INET, self.SOCK_STREAM, self.SOL_SOCKET, self.SO_REUSEADDR = _s.AF_INET, _s.SOCK_STREAM, _s.SOL_SOCKET, _s.SO_REUSEADDR
+    self.error = _s.error
+    self.made = []
+  def socket (self, *a):
+    k = NBSock(); self.made.append(k); return k
+
+
+class ReconnectWorld (object):
+  def __init__ (self):
+    global _SWSTACK
+    from mc import env
+    import pox.lib.ioworker as iow
+    import pox.lib.ioworker.workers as wk
+    import pox.datapaths as dps
+    if _SWSTACK is None: _SWSTACK = env.SwitchStack()
+    self.core = env.boot()
+    _SWSTACK.swmod.OFConnection.ID = 0
+    iow.makePinger = env.FakePinger
+    self.wk = wk
+    self.saved = (wk.socket, self.core.__dict__.get("callDelayed"), self.core.__dict__.get("callLater"))
+    self.sockmod = wk.socket = _SockMod()
+    self.timers = []
+    self.core.callDelayed = lambda t, f, *a, **k: self.timers.append((t, f, a, k))
+    self.core.callLater = lambda f, *a, **k: self.timers.append((0, f, a, k))
+    self.loop = iow.RecocoIOLoop()
+    self.gen = self.loop.run()
+    next(self.gen)
+    self.notes = []
+    self.recs = []              # one Recorder per OFConnection, in order of creation
+    self.conns = []
+    dps.OpenFlowWorker.begin(loop=self.loop, addr="127.0.0.1", port=6633, switch=_SWSTACK.sw, max_retry_delay=16)
+
+  def restore (self):
+    wk = self.wk
+    wk.socket = self.saved[0]
+    for name, val in (("callDelayed", self.saved[1]), ("callLater", self.saved[2])):
+      if val is None: self.core.__dict__.pop(name, None)
+      else: setattr(self.core, name, val)
+
+  def step (self, r=(), w=(), x=()):
+    try:
+      self.gen.send((list(r), list(w), list(x)))
+    except StopIteration:
+      if "io-loop-ended" not in self.notes: self.notes.append("io-loop-ended")
+
+  def worker_of (self, sock):
+    for wkr in self.loop._workers:
+      if wkr.socket is sock: return wkr
+    return None
+
+  def connect (self):
+    """Let the newest socket's connect complete; returns (worker, recorder) of the new OFConnection or None."""
+    self.step()                                   # pending registration
+    sock = self.sockmod.made[-1]
+    wkr = self.worker_of(sock)
+    if wkr is None: return None
+    self.step(w=[wkr])                            # writable -> connected -> OpenFlowWorker._handle_connect
+    conn = getattr(wkr, "connection", None)
+    if conn is None or any(conn is c for c in self.conns): return None
+    rec = Recorder()
+    conn.set_message_handler(rec)                 # in place of the switch's handler
+    orig = conn._error_handler
+    def eh (reason, info):
+      self.notes.append("error-handler-%s" % {1: "BAD_VERSION", 2: "NO_UNPACKER", 3: "BAD_LENGTH", 4: "EXCEPTION"}.get(reason, reason))
+      return orig(reason, info)
+    conn._error_handler = eh
+    self.conns.append(conn); self.recs.append(rec)
+    return wkr, rec
+
+  def feed (self, wkr, seg):
+    """`seg` is queued on the worker's socket; one loop round per wake-up while it is readable.  Yields bytes read."""
+    sock = wkr.socket
+    sock.rx.append(seg)
+    while sock.rx:
+      before = sum(len(c) for c in sock.rx)
+      self.step(r=[wkr])
+      got = before - sum(len(c) for c in sock.rx)
+      yield got
+      if got == 0: break
+
+  def lose (self, wkr, how):
+    wkr.socket.lost = how
+    if how == "exceptional": self.step(x=[wkr])
+    else: self.step(r=[wkr])
+    self.step()                                   # the loop closes the socket (pending command)
+
+  def fire_timers (self):
+    n = 0
+    while self.timers and n < 8:
+      t, f, a, k = self.timers.pop(0); n += 1
+      f(*a, **k)
+    return n
+
+
+def _check_log (log, checked, msgs, hdrs):
+  """Index of the first delivery that is not message #index (compared like run_case does), or None."""
+  for i in range(checked, len(log)):
+    if i >= len(msgs) or log[i][2] != msgs[i]: return i
+  return None
+
+
+def run_reconnect_case (aseq, cut, loss, bseq, kind, arg, src="/repo", trace=None):
+  """Returns (violation or None, profile, nreads)."""
+  side = "switch-reconnect"
+  amsgs = build("switch", aseq); A = b"".join(amsgs)
+  aends = list(itertools.accumulate(len(m) for m in amsgs))
+  acomplete = bisect.bisect_right(aends, cut)
+  partial = cut - (aends[acomplete - 1] if acomplete else 0)
+  hist = "after-loss-on-message-boundary" if partial == 0 else "after-loss-mid-message"
+  bmsgs = [m[:4] + struct.pack("!L", W.parse_hdr(m)[3] + 0x100000) + m[8:] for m in build("switch", bseq)]   # xids differ from A's
+  B = b"".join(bmsgs); bends = list(itertools.accumulate(len(m) for m in bmsgs))
+  def bad (clause, what):
+    return ("%s:%s:%s:%s" % (PID, side, clause, hist), "%s: %s" % (side, what))
+  def say (x):
+    if trace is not None: trace.append(x)
+  profile = []; nreads = 0
+  w = ReconnectWorld()
+  try:
+    signal.setitimer(signal.ITIMER_VIRTUAL, CASE_CPU_LIMIT, 1.0)
+    try:
+      c1 = w.connect()
+      if c1 is None: raise HarnessError("first connection did not come up")
+      wk1, rec1 = c1
+      rec1.limit = len(amsgs) + 8
+      if cut:
+        for got in w.feed(wk1, A[:cut]): nreads += 1
+      say("connection 1: %d of %d bytes of stream A received (%d complete messages, %d bytes of the next), delivered %d"
+          % (cut, len(A), acomplete, partial, len(rec1.log)))
+      if len(rec1.log) != acomplete or _check_log(rec1.log, 0, amsgs, None) is not None or w.notes:
+        return bad("first-connection", "connection 1 delivered %d messages of the %d complete in the %d bytes it received%s"
+                   % (len(rec1.log), acomplete, cut, (" (%s)" % w.notes[0]) if w.notes else "")), profile, nreads
+      w.lose(wk1, loss)
+      say("connection lost (%s): worker closed=%s, timers pending=%d" % (loss, wk1.closed, len(w.timers)))
+      if not wk1.closed:
+        return bad("loss-not-noticed", "worker still open after the connection was lost (%s)" % loss), profile, nreads
+      if not w.timers or not w.fire_timers():
+        return bad("no-reconnect", "no reconnect was scheduled after the connection was lost (%s)" % loss), profile, nreads
+      c2 = w.connect()
+      if c2 is None or len(w.sockmod.made) < 2:
+        return bad("no-reconnect", "the reconnect timer fired but no new connection came up"), profile, nreads
+      wk2, rec2 = c2
+      rec2.limit = len(bmsgs) + 8
+      say("reconnected: %s worker object, its receive buffer holds %d bytes" % ("same" if wk2 is wk1 else "new", len(wk2.receive_buf)))
+      fed = 0; checked = 0
+      for seg in segments(B, kind, arg):
+        for got in w.feed(wk2, seg):
+          fed += got; nreads += 1
+          complete = bisect.bisect_right(bends, fed)
+          say("connection 2 read #%d: +%d bytes (total %d), delivered so far %d" % (nreads, got, fed, len(rec2.log)))
+          if len(rec1.log) != acomplete:
+            return bad("delivered-on-dead-connection", "connection 1 delivered a message after it was lost"), profile, nreads
+          if len(rec2.log) > complete:
+            return bad("new-stream-not-intact", "early: %d messages delivered on the new connection, %d complete in the %d bytes it "
+                       "received (%d bytes of an incomplete message were pending when the old one was lost)"
+                       % (len(rec2.log), complete, fed, partial)), profile, nreads
+          i = _check_log(rec2.log, checked, bmsgs, None)
+          if i is not None:
+            typ, xid, packed, cname = rec2.log[i]
+            return bad("new-stream-not-intact", "delivery %d on the new connection is %s type=%r xid=%r, sent type=%d xid=%#x (%d bytes of an "
+                       "incomplete message were pending when the old connection was lost)"
+                       % (i, cname, typ, xid, W.parse_hdr(bmsgs[i])[1], W.parse_hdr(bmsgs[i])[3], partial)), profile, nreads
+          checked = len(rec2.log)
+          if w.notes or wk2.closed:
+            return bad("new-stream-not-intact", "%s on the new connection's well-formed stream after %d bytes (%d bytes of an incomplete "
+                       "message were pending when the old connection was lost)" % (w.notes[0] if w.notes else "worker closed", fed, partial)), profile, nreads
+          if not profile or profile[-1][1] != len(rec2.log): profile.append((fed, len(rec2.log)))
+      if fed != len(B) or len(rec2.log) != len(bmsgs) or wk2.receive_buf:
+        return bad("new-stream-not-intact", "%d of %d messages delivered on the new connection after %d of %d bytes, %d bytes left in its "
+                   "buffer (%d bytes of an incomplete message were pending when the old connection was lost)"
+                   % (len(rec2.log), len(bmsgs), fed, len(B), len(wk2.receive_buf), partial)), profile, nreads
+      return None, profile, nreads
+    finally:
+      signal.setitimer(signal.ITIMER_VIRTUAL, 0)
+  except Runaway:
+    return bad("new-stream-not-intact", "runaway delivery (stopped by the harness)"), profile, nreads
+  except (Exception, CaseTimeout) as e:
+    if isinstance(e, HarnessError): raise
+    et, ev_, tb = sys.exc_info()
+    site = _site(tb, src)
+    del tb
+    if site == "outside-pox": raise
+    return ("%s:%s:%s:%s:%s" % (PID, side, "hang" if isinstance(e, CaseTimeout) else "raises", site, type(e).__name__),
+            "%s: %s: %s escaped (%s), history %s" % (side, type(e).__name__, str(e)[:160], site, hist)), profile, nreads
+  finally:
+    w.restore()
+
+
+def reconnect_cases (alens, blens, thorough):
+  """(cut in A, loss kind, segmentation of B)"""
+  LA = sum(alens); LB = sum(blens)
+  crit = set([0, LA])
+  s = 0
+  for ln in alens:
+    crit.update(s + d for d in (0, 1, 3, 4, 7, 8)); crit.add(s + ln - 1); s += ln
+  segs = [("cuts", ())] + [("cuts", (p,)) for p in range(1, LB)] + [("chunk", k) for k in (1, 2, 3, 5, 7) if k < LB]
+  for cut in range(0, LA + 1):
+    for loss in RECONNECT_LOSS:
+      if loss != "eof" and cut not in crit and not thorough: continue
+      for kind, arg in segs: yield cut, loss, kind, arg
+
+
+def _worker_reconnect (item):
+  side, seq, thorough, src = item
+  aseq, bseq = seq
+  _guards()
+  rep = Report(PID, "model_checking")
+  alens = [len(m) for m in build("switch", aseq)]; blens = [len(m) for m in build("switch", bseq)]
+  first = True
+  for cut, loss, kind, arg in reconnect_cases(alens, blens, thorough):
+    v, profile, nreads = run_reconnect_case(aseq, cut, loss, bseq, kind, arg, src)
+    rep.evaluations += 1
+    rep.transitions += nreads + 4
+    rep.outcome((side, seq, cut, loss, tuple(profile), v and v[0]))
+    data = dict(side=side, seq=[list(aseq), list(bseq)], cut=cut, loss=loss, kind=kind, arg=list(arg) if kind == "cuts" else arg)
+    if v:
+      rep.violation(v[0], v[1] + " [stream A %s cut at %d, %s, then stream B %s, %s %r]"
+                    % ("+".join(aseq), cut, loss, "+".join(bseq), kind, data["arg"]), data)
+    elif first and cut and kind == "cuts" and len(arg) == 1:
+      first = False
+      rep.sample(dict(data, reads=nreads, delivered_after_bytes=[list(p) for p in profile]))
+  rep.state_count += rep.evaluations
+  return rep
+
+
 def _seqtext (seq):
   """a+a+a+b -> 3 x a + b"""
   out = []
@@ -740,6 +1037,7 @@ def _seqtext (seq):
 def _worker (item):
   side, seq, threecuts, src = item
   if side == "controller-live": return _worker_live(item)
+  if side == "switch-reconnect": return _worker_reconnect(item)
   _guards()
   rep = Report(PID, "model_checking")
   msgs = build(side, seq)
@@ -805,7 +1103,14 @@ def run (cfg):
               "every 1-cut in the first and (per message) last 2048+16 bytes, within 16 bytes of a boundary and at k*2048 / k*8192 "
               "+-1, every 2-cut over header-critical positions; segments longer than the receiver's recv size (2048 controller, 8192 switch) are handed "
               "out in pieces. distinct = distinct (side, sequence, bytes-received -> delivered-count profile, verdict); states = "
-              "distinct (side, sequence, bytes received, residual buffer length). controller-live: a fresh real Connection in "
+              "distinct (side, sequence, bytes received, residual buffer length). controller-nicira: the controller harness with "
+              "the Nicira component's VENDOR unpacker installed (nicira._init_unpacker), alphabet = vendor messages of another "
+              "vendor with 0..5 payload bytes (12..17 bytes), a Nicira role reply (20), barrier reply, packet-in; same sequences "
+              "and segmentations. switch-reconnect: the datapath's real OpenFlowWorker (BackoffWorker) on a real RecocoIOLoop with "
+              "scripted sockets and a hand-fired back-off timer; history = connect, the first c bytes of stream A (%s; every c in "
+              "0..len), connection lost (EOF for every c; reset / exceptional condition at the header-critical c, thorough: every "
+              "c), reconnect, stream B (%s) unsegmented / every 1-cut / read sizes 1,2,3,5,7; each connection must deliver "
+              "exactly the messages complete on it. controller-live: a fresh real Connection in "
               "the handshake state with its real handler tables (nothing replaced); stream = hello, features reply, the "
               "handshake-completing message (%s; xid of the controller's barrier), then every sequence of 0..%d (one less after "
               "the HP-style error) of {%s}; "
@@ -816,6 +1121,7 @@ def run (cfg):
                  ", ".join("%s(%d)" % (n, len(f(1))) for n, f in SWITCH), CHUNKS, SMALL_STREAM,
                  ", every 3-cut over the header-critical positions {0,1,3,4,7,8 bytes into a message, its last byte}" if threecuts else "",
                  "/".join(str(n) for n in JUMBO_SIZES), list(JUMBO_CHUNKS),
+                 " | ".join("+".join(a) for a in RECONNECT_A), " | ".join("+".join(b) for b in RECONNECT_B),
                  " / ".join(LIVE_FINISH), livelen, ", ".join(n for n, f in LIVE_TAIL)))
   rep.bound = dict(max_messages=maxlen, cuts="all 1-cuts; 2-cuts over P (all when L<=%d)%s; fixed read sizes"
                    % (SMALL_STREAM, "; 3-cuts over critical positions" if threecuts else ""),
@@ -830,6 +1136,8 @@ def run (cfg):
                      "controller-live: libopenflow's xid counter is restarted per connection (module global rebound) so the "
                      "handshake barrier's xid is known when the stream is written; segmentations that put the barrier reply in "
                      "the same read as the features reply are included although a real switch could not produce them",
+                     "switch-reconnect: core.callDelayed / callLater and the socket module of pox.lib.ioworker.workers are rebound "
+                     "for the duration of a case (virtual timer, scripted sockets) and restored afterwards",
                      "re-pack equality uses message forms libopenflow re-packs byte-for-byte (exact match, max_len 0)"]
   items = []
   for side in ("controller", "switch"):
@@ -854,8 +1162,17 @@ def run (cfg):
       j = "jumbo_%d" % n
       for seq in ((j, small), (j, small, second), (j, big), (small, j, small)):
         items.append((side, seq, threecuts, cfg.pox_src))
+  if not cfg.only or cfg.only == "controller-nicira":
+    names = [n for n, f in NICIRA]
+    for k in range(1, maxlen + 1):
+      for seq in itertools.product(names, repeat=k):
+        items.append(("controller-nicira", seq, threecuts, cfg.pox_src))
   # heavy streams first so the pool drains evenly (order only; every item is run)
   items.sort(key=lambda it: -sum(len(m) for m in build(it[0], it[1])))
+  if not cfg.only or cfg.only == "switch-reconnect":
+    for aseq in RECONNECT_A:
+      for bseq in RECONNECT_B:
+        items.append(("switch-reconnect", (aseq, bseq), not cfg.quick, cfg.pox_src))
   if not cfg.only or cfg.only == "controller-live":
     tails = [n for n, f in LIVE_TAIL]
     for fin in LIVE_FINISH:
@@ -872,8 +1189,19 @@ def run (cfg):
 def replay (cfg, data):
   from mc import env
   env.boot()
-  side, seq, kind, arg = data["side"], tuple(data["seq"]), data["kind"], data["arg"]
+  side, seq, kind, arg = data["side"], data["seq"], data["kind"], data["arg"]
+  if side != "switch-reconnect": seq = tuple(seq)
   _guards()
+  if side == "switch-reconnect":
+    aseq, bseq = tuple(data["seq"][0]), tuple(data["seq"][1])
+    trace = []
+    v, profile, nreads = run_reconnect_case(aseq, data["cut"], data["loss"], bseq, kind, tuple(arg) if kind == "cuts" else arg,
+                                            cfg.pox_src, trace=trace)
+    lines = ["switch-reconnect: stream A %s cut at byte %d, connection lost (%s), reconnect, stream B %s, %s %r"
+             % ("+".join(aseq), data["cut"], data["loss"], "+".join(bseq), kind, arg)]
+    lines += trace[:40]
+    lines.append("=> %s" % (("%s: %s" % v) if v else "both connections delivered exactly what was complete on them"))
+    return bool(v), "\n".join(lines)
   if side == "controller-live":
     xids = live_xids()
     trace = []
